@@ -395,17 +395,14 @@ def first_diff(cfg, impl_res, model_res):
 
 
 # ------------------------------------------------------------------ hypotheses of the theorems, findings
-EXCL = ["D", "G", "R", "C", "F", "E"]
+EXCL = ["D", "R"]
 SIGNATURE = {
     "D": "F-C10d-publish-in-socket-open",
-    "E": "F-C10e-connack-after-disconnect",
-    "F": "F-C10f-write-error-inside-loop-read",
-    "G": "F-C10g-reconnect-in-on-disconnect-after-disconnect",
     "H": "F-C10h-connected-inside-sock-close",
     "R": "F-C10i-connection-calls-in-teardown-callbacks",
-    "C": "F-C10j-reconnect-in-on-connect-refused",
     "T": "F-C16a-reconnect-in-teardown-callbacks",
 }
+STALE = {"F-C10j-reconnect-in-on-connect-refused": "F-C10j"}     # repaired by ba6c857 (loop_read returns when the socket is gone)
 C10_KEYS = ["c10_connected_x", "c10_one_disconnect", "c10_wire"]
 C16_KEYS = ["c16_open_close", "c16_reg_nested", "c16_no_lost_wakeup"]
 
@@ -417,7 +414,7 @@ def classify_batch(cases):
     res = []
     for o in outs:
         c10ok, c16ok = bool(o[0]), bool(o[1])
-        drop = o[11:17]
+        drop = o[11:13]
         if c10ok:
             viol = set()
         else:
@@ -446,7 +443,8 @@ def small_alphabet(cfg):
          O(("read", "connack", 0)), O(("read", "connack", refused)), O(("read", "eof")), O(("read", "unknown")),
          O(("read", "sdisc", 0)), O(("misc", 1)), O(("misc", 2)),
          O(("read", "connack", 0), (), scr_of(connect=[[0]])),
-         O(("read", "eof"), (), scr_of(disconnect=[[3]]))]
+         O(("read", "eof"), (), scr_of(disconnect=[[3]])),
+         O(("read", "pingreq"), (4,)), O(("disconnect",), (), scr_of(discopen=[[3]])), O(("disconnect",), (2,))]
     return A
 
 
@@ -473,19 +471,16 @@ def rand_op(rng, cfg, within=True):
     else:
         call = (k,)
     outs = [0, 0, 1, 2, 2, 3, 4]
-    if within and k == "read" and not cfg["ext"]:
-        outs = [0, 0, 1, 2, 2, 3]
     sched = tuple(rng.choice(outs) for _ in range(rng.choice([0, 0, 1, 1, 2, 3])))
     scr = []
-    refusing = call[0] == "read" and ((call[1] == "connack" and call[2] != 0) or call[1] == "downgrade")
     for s in SITES:
         q = []
-        if rng.random() < 0.3 and not (within and s == "open"):
+        if rng.random() < 0.3 and not (within and s == "open" and not cfg["ext"]):
             cl = [0, 1, 2, 3, 3, 4]
             if within:
                 if s in ("close", "unregw"):
                     cl = [0, 1]
-                elif s in ("regw", "discopen") or (s == "connect" and refusing):
+                elif s in ("regw", "open"):
                     cl = [0, 1, 2]
             for _ in range(rng.choice([1, 1, 2])):
                 q.append(tuple(rng.choice(cl) for _ in range(rng.choice([0, 1, 1, 2]))))
@@ -501,8 +496,9 @@ def random_case(rng, within=True):
 
 
 def corpus_cases():
-    """(name, cfg, ops, expected signature or None).  First the replays of the repaired defects F-C10a/b/c
-    (they must pass on the current tree), then the witnesses of the open findings (Link/ConnRefuted.v)."""
+    """(name, cfg, ops, expected finding letter or None).  First the regression replays of the repaired defects
+    (F-C10a/b/c, e, f, g, j, the first form of i, d in external-loop mode): they must pass.  Then the witnesses of
+    the open findings (Link/ConnRefuted.v): they must be rejected."""
     d4 = {"ext": False, "sockcb": False, "proto": 4, "api": 2}
     d5 = dict(d4, proto=5)
     cb = dict(d4, sockcb=True)
@@ -516,16 +512,20 @@ def corpus_cases():
         ("F-C10b-ping-timeout", dict(d4, api=1), [O(("connect", True)), ca, O(("misc", 1)), O(("misc", 2))], None),
         ("F-C10c-server-disconnect-leaves-connected", d5, [O(("connect", True)), ca, O(("read", "sdisc", 139, 1))], None),
         ("F-C10c-server-disconnect-empty-body", dict(d5, api=1), [O(("connect", True)), ca, O(("read", "sdisc", 0, 0))], None),
+        ("F-C10e", d4, [O(("connect", True)), O(("disconnect",), (2,)), ca, O(("write",))], None),
+        ("F-C10e-rc", d4, [O(("connect", True)), O(("disconnect",), (2,)), ca, O(("read", "eof"))], None),
+        ("F-C10f", d4, [O(("connect", True)), O(("read", "pingreq"), (4,))], None),
+        ("F-C10f-downgrade", d4, [O(("connect", True)), O(("read", "downgrade", 1), (4,))], None),
+        ("F-C10g", d4, [O(("connect", True)), O(("disconnect",), (), scr_of(discopen=[[3]]))], None),
+        ("F-C10j", d4, [O(("connect", True)), O(("read", "connack", 5), (), scr_of(connect=[[4]]))], None),
+        ("F-C10i-rc-after-reconnect", ex, [O(("connect", True)), O(("disconnect",)), O(("read", "eof"), (), scr_of(unregw=[[3]]))], None),
+        ("F-C10d-external-loop", excb, [O(("connect", True), (), scr_of(open=[[0, 2]])), O(("write",))], None),
+        ("F-C10h-loop-error", excb, [O(("connect", True)), O(("write",)), ca, O(("publish",)), O(("read", "eof"))], None),
         ("F-C10h", ex, [O(("connect", True)), ca, O(("connect", False))], "H"),
-        ("F-C10e", d4, [O(("connect", True)), O(("disconnect",), (2,)), ca, O(("write",))], "E"),
-        ("F-C10e-rc", d4, [O(("connect", True)), O(("disconnect",), (2,)), ca, O(("read", "eof"))], "E"),
-        ("F-C10f", d4, [O(("connect", True)), O(("read", "pingreq"), (4,))], "F"),
-        ("F-C10f-downgrade", d4, [O(("connect", True)), O(("read", "downgrade", 1), (4,))], "F"),
-        ("F-C10g", d4, [O(("connect", True)), O(("disconnect",), (), scr_of(discopen=[[3]]))], "G"),
         ("F-C10d", cb, [O(("connect", True), (), scr_of(open=[[0]]))], "D"),
-        ("F-C10i", ex, [O(("connect", True)), O(("disconnect",)), O(("read", "eof"), (), scr_of(unregw=[[3]]))], "R"),
+        ("F-C10d-reconnect-external-loop", excb, [O(("connect", True), (), scr_of(open=[[3]])), O(("write",))], "D"),
+        ("F-C10i", ex, [O(("reconnect", True)), O(("misc", 1), (), scr_of(unregw=[[2]]))], "R"),
         ("F-C10i-close", cb, [O(("reconnect", True)), O(("reconnect", True), (4,), scr_of(close=[[2]]))], "R"),
-        ("F-C10j", d4, [O(("connect", True)), O(("read", "connack", 5), (), scr_of(connect=[[4]]))], "C"),
         ("F-C16a", excb, [O(("connect", True)), O(("connect", True), (), scr_of(unregw=[[3]]))], "T"),
         ("F-C16a-close", cb, [O(("reconnect", True)), O(("reconnect", True), (), scr_of(close=[[3]]))], "T"),
     ]
@@ -647,7 +647,10 @@ def standard_run(ctx, out, prop):
         v = byidx[i]["verdicts"]
         keys = C10_KEYS if prop == "C10" else C16_KEYS
         if exp is None and prop == "C10" and not all(v[k] for k in keys + ["c10_connected"]):
-            out.notes.append(f"corpus case {name} (repaired defect) is rejected again: { {k: v[k] for k in keys} }")
+            out.notes.append(f"corpus case {name} (repaired defect) is rejected again: { {k: v[k] for k in keys + ['c10_connected']} }")
+            out.violations.append({"case": {"cfg": cfg, "ops": ops}, "checkers": [k for k in keys + ["c10_connected"] if not v[k]],
+                                   "signature": "C10-regression:" + name, "what": "a repaired defect is back",
+                                   "ops_short": [short(o) for o in ops]})
         if exp is not None:
             hit = (not v["c10_connected"]) if exp == "H" else (not all(v[k] for k in (C16_KEYS[:2] if exp == "T" else C10_KEYS)))
             out.stat(("finding-reproduced:" if hit else "finding-not-reproduced:") + SIGNATURE[exp])
@@ -718,6 +721,13 @@ def replay_case(payload, prop):
 
 def finding_fails(sig):
     """does the corpus witness of the finding with this signature still fail on the implementation?"""
+    if sig in STALE:
+        name = STALE[sig]
+        for n, cfg, ops, exp in corpus_cases():
+            if n == name:
+                v, _ = judge_one(cfg, [norm_op(o) for o in ops])
+                bad = not all(v[k] for k in C10_KEYS)
+                return bad, {"witness": name, "verdicts": v, "note": "repaired by /repo ba6c857; within the hypotheses of the proved theorems"}
     for name, cfg, ops, exp in corpus_cases():
         if exp is not None and SIGNATURE[exp] == sig:
             v, _ = judge_one(cfg, [norm_op(o) for o in ops])
